@@ -489,6 +489,31 @@ lemma("herm_bd", [a, b], z3.Implies(z3.And(sq(a), sq(b)), herm(bd(a, b)) == z3.A
 lemma("herm_rep", [a, n], z3.Implies(z3.And(sq(a), n >= 1), herm(rep(a, n)) == herm(a)), [herm(rep(a, n))], ML + "same")
 lemma("psd_kron", [a, b], z3.Implies(z3.And(psd(a), psd(b)), psd(kron(a, b))), [psd(a), psd(b), kron(a, b)], ML + "Matrix.PosSemidef.kronecker")
 lemma("herm_kron", [a, b], z3.Implies(z3.And(herm(a), herm(b)), herm(kron(a, b))), [herm(a), herm(b), kron(a, b)], ML + "conjTranspose_kronecker")
+lemma("herm_madd", [a, b], z3.Implies(z3.And(herm(a), herm(b)), herm(madd(a, b))), [[herm(a), herm(b), madd(a, b)]], ML + "Matrix.IsHermitian.add")
+lemma("psd_madd", [a, b], z3.Implies(z3.And(psd(a), psd(b)), psd(madd(a, b))), [[psd(a), psd(b), madd(a, b)]], ML + "Matrix.PosSemidef.add")
+lemma("herm_trp", [a], z3.Implies(herm(a), z3.And(herm(tr(a)), herm(cj(a)))), [[herm(a), tr(a)], [herm(a), cj(a)]], ML + "Matrix.IsHermitian.transpose / .map")
+lemma("psd_trp", [a], z3.Implies(psd(a), z3.And(psd(tr(a)), psd(cj(a)))), [[psd(a), tr(a)], [psd(a), cj(a)]], ML + "Matrix.PosSemidef.transpose / conjTranspose")
+lemma("unit_trp", [a], z3.Implies(unit(a), z3.And(unit(tr(a)), unit(cj(a)))), [[unit(a), tr(a)], [unit(a), cj(a)]], ML + "Matrix.mem_unitaryGroup transpose/star")
+lemma("unit_kron", [a, b], z3.Implies(z3.And(unit(a), unit(b)), unit(kron(a, b))), [[unit(a), unit(b), kron(a, b)]], ML + "Matrix.kronecker_mem_unitary")
+lemma("stief_kron", [a, b], z3.Implies(z3.And(stief(a), stief(b)), stief(kron(a, b))), [[stief(a), stief(b), kron(a, b)]], ML + "mul_kronecker_mul: (A(x)B)^H (A(x)B) = A^H A (x) B^H B")
+lemma("unit_bd", [a, b], z3.Implies(z3.And(unit(a), unit(b)), unit(bd(a, b))), [[unit(a), unit(b), bd(a, b)]], ML + "blockDiagonal of unitaries")
+lemma("stief_bd", [a, b], z3.Implies(z3.And(stief(a), stief(b)), stief(bd(a, b))), [[stief(a), stief(b), bd(a, b)]], ML + "blockDiagonal_mul")
+lemma("unit_rep", [a, n], z3.Implies(unit(a), unit(rep(a, n))), [[unit(a), rep(a, n)]], ML + "blockDiagonal of unitaries")
+lemma("stief_rep", [a, n], z3.Implies(stief(a), stief(rep(a, n))), [[stief(a), rep(a, n)]], ML + "blockDiagonal_mul")
+lemma("unit_mmul", [a, b], z3.Implies(z3.And(unit(a), unit(b), cols(a) == rows(b)), unit(mmul(a, b))), [[unit(a), unit(b), mmul(a, b)]], ML + "unitaryGroup is closed under multiplication")
+lemma("stief_mmul", [a, b], z3.Implies(z3.And(stief(a), stief(b), cols(a) == rows(b)), stief(mmul(a, b))), [[stief(a), stief(b), mmul(a, b)]], ML + "(AB)^H AB = B^H A^H A B = I")
+lemma("stief_sq_unit", [a], z3.Implies(z3.And(stief(a), sq(a)), unit(a)), [stief(a)], ML + "a square matrix with A^H A = I is unitary (mul_eq_one_comm)")
+lemma("psd_minv", [a], z3.Implies(z3.And(psd(a), invok(a)), psd(minv(a))), [[psd(a), minv(a)]], ML + "Matrix.PosDef.inv")
+lemma("herm_minv", [a], z3.Implies(z3.And(herm(a), invok(a)), herm(minv(a))), [[herm(a), minv(a)]], ML + "Matrix.IsHermitian.inv")
+lemma("psd_smul_eye", [x, n], z3.Implies(x >= 0, psd(smul(x, 0, eye(n)))), [smul(x, 0, eye(n))], ML + "PosSemidef.smul of one")
+lemma("herm_smul_real", [x, a], z3.Implies(herm(a), herm(smul(x, 0, a))), [[herm(a), smul(x, 0, a)]], ML + "Matrix.IsHermitian.smul (real scalar)")
+lemma("unit_stief", [a], z3.Implies(unit(a), stief(a)), [unit(a)], "unitary matrices have orthonormal columns")
+lemma("psd_cjtr_mul", [a], psd(mmul(cj(tr(a)), a)), [mmul(cj(tr(a)), a)], ML + "Matrix.posSemidef_conjTranspose_mul_self")
+lemma("psd_mul_cjtr", [a], psd(mmul(a, cj(tr(a)))), [mmul(a, cj(tr(a)))], ML + "Matrix.posSemidef_self_mul_conjTranspose")
+lemma("psd_tr_mul_real", [a], z3.Implies(isreal(a), z3.And(psd(mmul(tr(a), a)), psd(mmul(a, tr(a))))), [mmul(tr(a), a)], ML + "posSemidef_conjTranspose_mul_self for real matrices")
+lemma("psd_mul_tr_real", [a], z3.Implies(isreal(a), psd(mmul(a, tr(a)))), [mmul(a, tr(a))], ML + "same")
+lemma("stief_gram", [a], z3.Implies(stief(a), z3.And(mmul(cj(tr(a)), a) == eye(cols(a)))), [[stief(a), mmul(cj(tr(a)), a)]], "definition: A^H A = I")
+lemma("psd_herm_kron", [a, b], z3.Implies(z3.And(psd(a), psd(b)), herm(kron(a, b))), [[psd(a), psd(b), kron(a, b)]], ML + "PosSemidef.kronecker.isHermitian")
 lemma("psd_diagm", [a], psd(diagm(a)) == vpos(a), [psd(diagm(a))], ML + "Matrix.posSemidef_diagonal_iff")
 lemma("vpos_sqrt", [a], z3.Implies(vpos(a), z3.And(vmul(vap(f_pow(HALF), a), vap(f_pow(HALF), a)) == a, vpos(vap(f_pow(HALF), a)))),
       [vap(f_pow(HALF), a)], "sqrt(x)^2 = x, sqrt(x) >= 0 for x >= 0")
